@@ -667,6 +667,10 @@ def check(ctx, rep):
 
     # a reported site is skipped when a helper visitor still holds what it gathered for an earlier site
     rule_fresh_visitor(ctx, rep)
+    from .c09 import rule_runwide_state
+
+    # what the detector reports for this codemod is acted on whatever an earlier codemod of the run recorded about the file
+    rule_runwide_state(ctx, rep)
     rep.not_covered += [
         "agreement of semgrep positions with libcst positions for all spellings (line/column matching)",
         "semgrep's matching semantics in general (metavariable unification, taint propagation)",
